@@ -959,6 +959,39 @@ static void fam_c11_repeat(G& g, Plan& p) {
 }
 
 
+
+// give-back after mi_heap_delete of heaps the backing heap cannot absorb (own tag, or bound to an arena): their pages are abandoned
+// inside segments the thread still owns; once everything is freed and the threads are gone all of it must be given back
+static void fam_c11_heapdelete(G& g, Plan& p) {
+  p.cfg.madv_free_mode = 1;
+  if (g.chance(0.3)) set_env(p, "ABANDONED_RECLAIM_ON_FREE", g.pick({0, 1}));
+  const bool arena = true;       // (heaps with an own tag would do as well, but re-adopting their pages raises the EFAULT report of known finding F6)
+  const int nthreads = 1 + (int)g.below(3);
+  p.nslots = 80 * (nthreads + 1); p.progs.resize((size_t)(1 + nthreads));
+  Program& P0 = p.progs[0];
+  if (arena) P0.ops.push_back(mk(OP_reserve_arena, 0, (64 + 32 * g.below(3)) * MiB, g.below(2), g.below(2)));
+  int mix = SM_SMALL | SM_BOUNDARY | SM_MEDIUM | (g.chance(0.4) ? SM_LARGE : 0);
+  for (int t = 0; t <= nthreads; t++) {
+    Program& P = p.progs[(size_t)t]; const int base = t * 80;
+    if (t > 0) P.explicit_done = g.chance(0.5);
+    int rounds = 1 + (int)g.below(3);
+    for (int rd = 0; rd < rounds; rd++) {
+      P.ops.push_back(mkh(OP_heap_new_in_arena, 0, 0));
+      int n = 6 + (int)g.below(30);
+      for (int i = 0; i < n; i++) { Op o = mk(g.chance(0.1) ? OP_zalloc : OP_malloc, base + (int)g.below(70), gen_size(g, mix)); o.hslot = g.chance(0.6) ? 0 : -1; if (o.hslot == 0) o.flags = OPF_MAY_FAIL; P.ops.push_back(o); if (g.chance(0.15)) P.ops.push_back(mk(OP_free, base + (int)g.below(70))); }
+      P.ops.push_back(mkh(OP_heap_delete, 0));
+      int m = (int)g.below(40);
+      for (int i = 0; i < m; i++) P.ops.push_back(g.chance(0.6) ? mk(OP_free, base + (int)g.below(70)) : mk(OP_malloc, base + (int)g.below(70), gen_size(g, mix)));
+      if (g.chance(0.3)) P.ops.push_back(mk(OP_collect, -1, g.below(2)));
+    }
+    if (t > 0) P0.ops.push_back(mk(OP_spawn, t));
+  }
+  for (int t = 1; t <= nthreads; t++) P0.ops.push_back(mk(OP_join, t));
+  P0.ops.push_back(mk(OP_verify_all));
+  P0.ops.push_back(mk(OP_free_all));
+  P0.ops.push_back(mk(OP_giveback_check, -1, 4));
+}
+
 // give-back against the clock: whole segments / huge blocks are freed, re-allocated and collected (forced and not) at times spread
 // around the arena purge delay, so that the per-arena and the global purge schedules get out of step; at the end everything is
 // freed and one forced collect must have returned all of it
@@ -1787,6 +1820,7 @@ static const FamilyDef FAMILIES[] = {
   {"c07_threadstart", "C07", fam_c07_threadstart, 0, true},
   {"c09_oslist", "C09", fam_c09_oslist, 0, true},
   {"c01_pagequeue", "C01", fam_c01_pagequeue, 1, false},
+  {"c11_heapdelete", "C11", fam_c11_heapdelete, 0, true},
   {"c15_arenas", "C15", fam_c15_arenas, 0, true},
   {"c17_misuse", "C17", fam_c17_misuse, 1, true},
   {"c03_align", "C03", fam_c03_align, 1, false},
